@@ -2,7 +2,7 @@
 # usage: try_seeds.sh "<patch>:<PROP,PROP>" ...   -- batch version of try_seed.sh
 for spec in "$@"; do
   patch=${spec%%:*}; props=${spec##*:}
-  cd /repo || exit 2
+  cd "${REPO_DIR:-/repo}" || exit 2
   git status --short | grep -q . && { echo "/repo is not clean"; exit 2; }
   git apply "$patch" || { echo "patch does not apply: $patch"; continue; }
   cd "${VERIF_DIR:-/verif}"
@@ -12,6 +12,6 @@ for spec in "$@"; do
     echo "== $p exit=$rc $(echo "$out" | grep -E "^$p quick" | head -1)"
     echo "$out" | grep -E "VIOLATION|signature:|INCONCLUSIVE" | head -6
   done
-  cd /repo && git checkout -- . && git status --short | head -3
+  cd "${REPO_DIR:-/repo}" && git checkout -- . && git status --short | head -3
 done
 cd "${VERIF_DIR:-/verif}" && ./check --build
